@@ -452,5 +452,54 @@ pub fn run_c10_gate(ctx: &Ctx) {
     gate!("fn()->Result<bool,bool>", false, n13, fn() -> Result<bool, bool>, |_v: bool| true);
     gate!("unsafe-extern-C-fn()->fn(fn()->bool)->bool", false, n14, unsafe extern "C" fn() -> fn(fn() -> bool) -> bool, |_v: bool| true);
     gate!("fn()->Cell<bool>", false, n15, fn() -> std::cell::Cell<bool>, |_v: bool| true);
+    // --- no type information at all (when_called_unchecked / a hand-made FuncPtr with an empty
+    // signature): the function cannot be known to return bool, so a NON-bool function must still be
+    // refused; what happens for a function that does return bool is not judged.
+    macro_rules! gate_untyped {
+        ($label:expr, $f:expr, $how:expr) => {{
+            if ctx.mine(idx) {
+                let class = format!("gate-untyped/{}", $label);
+                out::intent(idx, &class, &J::new().s("crash_sig", "gate-untyped"));
+                let addr = $f as usize;
+                let image = bytes_at(addr, 16);
+                let (res, _m) = panicobs::observe(|| {
+                    let mut inj = ip::lib(InjectorPP::new);
+                    let r = std::panic::catch_unwind(std::panic::AssertUnwindSafe(|| {
+                        ip::lib(|| {
+                            if $how == 0 {
+                                unsafe { inj.when_called_unchecked(fp(addr, "")).will_return_boolean(true) }
+                            } else if $how == 1 {
+                                inj.when_called(fp(addr, "")).will_return_boolean(true)
+                            } else {
+                                unsafe { inj.when_called_unchecked(injectorpp::func_unchecked!($f)).will_return_boolean(false) }
+                            }
+                        })
+                    }));
+                    let intact = bytes_at(addr, 16) == image;
+                    ip::lib(|| drop(inj));
+                    (r.is_ok(), intact)
+                });
+                match res {
+                    Ok((accepted_it, intact)) => {
+                        if accepted_it { accepted += 1 } else { refused += 1 }
+                        let d = J::new().s("function", $label).b("accepted", accepted_it).b("target_intact_at_outcome", intact);
+                        let sig = if accepted_it { "non-bool-function-accepted-without-type-information" } else if !intact { "refusal-after-memory-was-touched" } else { "" };
+                        out::outcome(idx, &class, if sig.is_empty() { Verdict::Held } else { Verdict::Violated }, sig, &d);
+                    }
+                    Err(m) => out::outcome(idx, &class, Verdict::Violated, "panic-outside-the-install-call", &J::new().s("msg", &m)),
+                }
+            }
+            idx += 1;
+        }};
+    }
+    #[inline(never)] fn u0() -> u64 { std::hint::black_box(0x1122_3344_5566_7788) }
+    #[inline(never)] fn u1() -> String { String::from("not a bool") }
+    #[inline(never)] fn u2(_a: i32) -> fn() -> bool { b0 }
+    gate_untyped!("fn()->u64/when_called_unchecked", u0, 0);
+    gate_untyped!("fn()->u64/empty-signature-FuncPtr", u0, 1);
+    gate_untyped!("fn()->u64/func_unchecked!", u0, 2);
+    gate_untyped!("fn()->String/when_called_unchecked", u1, 0);
+    gate_untyped!("fn()->String/func_unchecked!", u1, 2);
+    gate_untyped!("fn(i32)->fn()->bool/when_called_unchecked", u2, 0);
     out::summary(&J::new().n("signatures", idx).n("accepted", accepted).n("refused", refused));
 }
